@@ -217,6 +217,12 @@ func (s *Log) Nice(o TickOptions) {
 		return
 	}
 	firstN, lastN, base := s.spacingAtLevel(level, true)
+	if math.IsInf(base, 0) {
+		// Only an infinite effective base satisfies o (o.Max
+		// is too small to cover the domain), so there is no
+		// nice domain. Leave the domain alone.
+		return
+	}
 	s.Min = math.Pow(base, firstN)
 	s.Max = math.Pow(base, lastN)
 	if neg {
